@@ -756,6 +756,7 @@ def r153_function(pe, rep):
     u = pe.u
     fline = u.fn('function').line
     ag = Agg(rep, 'R15.3', PU, 'function')
+    lk = Agg(rep, 'R15.8', PU, 'function')          # linkage across redeclarations
     npaths = 0
     for isdef in (0, 1):
         for attr in _bits(('is_static', 'is_inline', 'is_extern')):
@@ -768,6 +769,7 @@ def r153_function(pe, rep):
                         continue
 
                 def h_find(it, ctx, n, args):
+                    ctx.emit('find', args[0] if args else None, n.line)
                     return ctx.c15_old
 
                 def h_equal(it, ctx, n, args, isdef=isdef):
@@ -836,6 +838,8 @@ def r153_function(pe, rep):
                         r0 = old['is_root']
                         ag.note('definition-flag/redeclaration', _final(it, f.fields.get('is_definition')) == int(old['is_definition'] or isdef),
                                 'after a redeclaration %s a body is_definition is %r (was %d)' % ('with' if isdef else 'without', f.fields.get('is_definition'), old['is_definition']), fline, facts)
+                        _judge_redeclared_linkage(it, ctx, lk, f, old, attr, isdef, st, fline, facts)
+                    _judge_lookup_name(it, ctx, lk, fline, facts)
                     root = _final(it, f.fields.get('is_root', 0))
                     if not all(isinstance(x, int) for x in (st, inl, root)):
                         ag.undecided('is_root', 'linkage flags are not concrete after function(): %r %r %r' % (st, inl, root), fline)
@@ -870,6 +874,55 @@ def r153_function(pe, rep):
     if npaths == 0:
         raise AnalysisBroken('function(): no returning path explored')
     ag.flush(fline)
+    lk.flush(fline)
+
+
+def _judge_redeclared_linkage(it, ctx, lk, f, old, attr, isdef, st, fline, facts):
+    """C11 6.2.2p4/p5, 6.7.4p7: the linkage of a function is fixed by its first declaration.  A later declaration without `static`
+    (plain, extern, inline) inherits internal linkage; a later `inline` does not turn a function that already has external linkage
+    into an inline definition.  Only the judgements that hold for every conforming treatment of the flags are made:
+      earlier is_static, not inline (declared `static`)                   -> stays is_static, whatever the later specifiers
+      earlier is_static and inline, later `static` or `inline` w/o extern  -> stays is_static
+      earlier is_static and inline, later plain / extern                   -> not judged (`inline f; extern f;` is an external definition in C11,
+                                                                             `static inline f; extern f;` is not: the Obj does not tell them apart)
+      earlier not is_static, later without `static`                        -> stays external
+      earlier not is_static, later `static`                                -> undefined behaviour (6.2.2p7), not judged"""
+    if not isinstance(st, int):
+        lk.undecided('linkage/redeclaration', 'is_static is not concrete after a redeclaration: %r' % (st,), fline)
+        return
+    later = _attr_doc(attr, isdef)
+    fn_ = _final(it, f.fields.get('is_function'))
+    lk.note('function-flag/redeclaration', fn_ == 1, 'after a redeclaration %s is_function is %r: emit_text skips the function' % (later, fn_), fline, facts)
+    inline_def = attr['is_inline'] and not attr['is_extern']
+    if old['is_static']:
+        if old['is_inline'] and not (attr['is_static'] or inline_def):
+            return
+        lk.note('linkage/redeclaration-keeps-internal', st == 1,
+                'a function first declared with internal linkage (is_static=1, is_inline=%d) and declared again %s ends with is_static=%d: the linkage follows the latest '
+                'declaration instead of the first (C11 6.2.2p4/p5: a later declaration without `static` inherits internal linkage); the function is emitted .globl and clashes with / '
+                'interposes on a same-named function of another translation unit' % (old['is_inline'], later, st), fline, facts)
+    elif not attr['is_static']:
+        lk.note('linkage/redeclaration-keeps-external', st == 0,
+                'a function first declared with external linkage (is_static=0, is_inline=%d) and declared again %s ends with is_static=%d: the linkage follows the latest '
+                'declaration instead of the first (C11 6.7.4p7: not all declarations are `inline` without `extern`, so this is an external definition); the function is emitted '
+                '.local and other translation units cannot call it' % (old['is_inline'], later, st), fline, facts)
+
+
+def _judge_lookup_name(it, ctx, lk, fline, facts):
+    """the earlier declaration is looked up under the declared name (get_ident of the declarator's name token), exactly once, before the flags are decided"""
+    finds = [e for e in ctx.events if e[0] == 'find']
+    idents = [e for e in ctx.events if e[0] == 'call' and e[1] == 'get_ident' and len(e) > 4 and e[2] and isinstance(_final(it, e[2][0]), Obj) and _final(it, e[2][0]).label == 'ty.name']
+    if not finds:
+        lk.note('lookup/earlier-declaration-consulted', False,
+                'function() decides the flags of the function without calling find_func: a redeclaration is not recognised, every declaration creates a new Obj whose linkage follows its own specifiers', fline, facts)
+        return
+    lk.note('lookup/earlier-declaration-consulted', True)
+    if not idents:
+        lk.undecided('lookup/by-declared-name', 'the declared name is not obtained with get_ident(ty->name): the lookup key cannot be recognised', finds[0][2])
+        return
+    bad = [e for e in finds if not any(same(e[1], i[4]) for i in idents)]
+    lk.note('lookup/by-declared-name', not bad,
+            'the earlier declaration is looked up under %r, not under the declared name: a redeclaration is not matched with the first declaration' % (bad[0][1] if bad else None,), bad[0][2] if bad else fline, facts)
 
 
 def _attr_doc(attr, isdef):
@@ -1144,7 +1197,81 @@ def _first_global(ctx):
     return None
 
 
+def r158_find_func(pe, rep):
+    """find_func(name): the binding of `name` in the outermost (file) scope, whatever the other flags of the function are; NULL when there is none"""
+    u = pe.u
+    fline = u.fn('find_func').line
+    ag = Agg(rep, 'R15.8', PU, 'find_func')
+    FLAGS = ('is_definition', 'is_static', 'is_inline', 'is_root', 'is_live')
+
+    def h_get(it, ctx, n, args):
+        ctx.emit('lookup', _final(it, args[0]) if args else None, args[1] if len(args) > 1 else None, n.line)
+        return ctx.c15_entry
+    nulls = []
+    it = pe.interp(('find_func',), cut={'hashmap_get': h_get}, globals_={'scope': lambda ctx: ctx.c15_scs[0]}, loop_limit=4,
+                   on_null_deref=lambda it_, n: nulls.append(n.line))
+    cases = [('no-binding', None), ('binding-without-object', None)] + [('function', fl) for fl in _bits(FLAGS)]
+    n = 0
+    for depth in (1, 2, 3):
+        for kind, fl in cases:
+            def mk(ctx, depth=depth, kind=kind, fl=fl):
+                scs = []
+                for i in range(depth):
+                    sc = Obj('Scope', lazy=False, label='scope%d' % i)
+                    sc.fields.update(dict(vars=Obj('HashMap', lazy=True, label='scope%d.vars' % i), tags=Obj('HashMap', lazy=True, label='scope%d.tags' % i), next=0))
+                    scs.append(sc)
+                for a, b in zip(scs, scs[1:]):
+                    a.fields['next'] = b
+                ctx.c15_scs = scs
+                ctx.c15_v = None
+                if kind == 'no-binding':
+                    ctx.c15_entry = 0
+                else:
+                    e = Obj('VarScope', lazy=False, label='binding')
+                    e.fields.update(dict(var=0, type_def=0, enum_ty=0, enum_val=0))
+                    if fl is not None:
+                        v = Obj('Obj', lazy=True, label='earlier-declaration')
+                        v.fields.update(fl)
+                        v.fields.update(dict(is_function=1, is_local=0))
+                        e.fields['var'] = ctx.c15_v = v
+                    ctx.c15_entry = e
+                return [Sym('name', 'char *')]
+            del nulls[:]
+            res = _explore(it, 'find_func', mk)
+            where = 'file scope' if depth == 1 else 'block-depth-%d' % (depth - 1)
+            facts = {'scope depth': depth, 'binding': kind, 'flags of the bound function': fl}
+            if nulls:
+                n += 1
+                ag.note('lookup/' + kind, False, 'find_func dereferences a NULL pointer when the name has %s' % kind.replace('-', ' '), nulls[0], facts)
+                continue
+            rets = [(c, o) for c, o in res if o[0] == 'ret']
+            if len(rets) != 1 or len(res) != 1:
+                ag.undecided('lookup/' + kind, 'find_func has %d paths (%d returning) on a concrete scope chain' % (len(res), len(rets)), fline)
+                continue
+            ctx, out = rets[0]
+            n += 1
+            r = _final(it, out[1])
+            lks = [e for e in ctx.events if e[0] == 'lookup']
+            facts['lookups'] = [repr(e[1:3]) for e in lks]
+            ag.note('lookup/file-scope-table', len(lks) == 1 and lks[0][1] is ctx.c15_scs[-1].fields['vars'] and same(lks[0][2], Sym('name')),
+                    'find_func (called at %s) does not look the name up in the identifier table of the outermost scope exactly once (lookups: %s): a function declared at file scope is '
+                    'not found again and a redeclaration creates a second Obj with its own linkage' % (where, facts['lookups']), fline, facts)
+            if fl is None:
+                ag.note('lookup/' + kind, isinstance(r, int) and r == 0, 'find_func returns %r for a name that has %s' % (r, kind.replace('-', ' ')), fline, facts)
+                continue
+            ag.note('lookup/function-found-whatever-its-flags', r is ctx.c15_v,
+                    'find_func returns %r for a name bound to a function at file scope with %s: the earlier declaration is not recognised, function() creates a fresh Obj and the linkage / '
+                    'definition / root marks of the first declaration are lost' % (r, ', '.join('%s=%d' % kv for kv in sorted(fl.items()))), fline, facts)
+            st = [e for e in ctx.events if e[0] == 'fstore' and e[1] is ctx.c15_v]
+            ag.note('lookup/leaves-the-function-unchanged', not st, 'find_func writes %s of the function it looks up' % sorted(set(e[2] for e in st)), fline, facts)
+    if n == 0:
+        raise AnalysisBroken('find_func: nothing explored')
+    ag.flush(fline)
+
+
 def r153(pe, rep):
+    rep.rule('R15.8', 'the linkage of a function is fixed by its first declaration (C11 6.2.2p4/p5, 6.7.4p7): function() looks the earlier declaration up once, under the declared '
+             'name; find_func returns the file-scope binding whatever its flags; a redeclaration leaves is_static (and is_function) of the existing Obj as the first declaration set it', floor=10)
     rep.rule('R15.3', 'liveness: is_root is false exactly for unreferenced static inline functions and a root mark is never withdrawn; every reference to a function is '
              'recorded (on current_fn->refs inside a function, as a root mark at file scope); current_fn designates the function exactly while its body is parsed; '
              'mark_live marks before it recurses, tests is_live, visits every recorded reference; parse marks from every root', floor=18)
@@ -1154,7 +1281,8 @@ def r153(pe, rep):
             f()
         except AnalysisBroken as e:
             rep.undecided('R15.3', '%s:%s:analysis' % (PU, fns[0]), 'part of the rule could not be evaluated: %s' % e)
-    part(('function', 'new_gvar'), lambda: r153_function(pe, rep))
+    part(('function', 'new_gvar', 'find_func'), lambda: r153_function(pe, rep))
+    part(('find_func',), lambda: r158_find_func(pe, rep))
     keep = [o for o in rep.obs if o['key'] == 'R15.3:%s:function:is_root/redeclaration-keeps-root-mark' % PU]
     permanent = bool(keep) and all(o['verdict'] == 'holds' for o in keep)
     lk = [o for o in rep.obs if o['key'] in ('R15.3:%s:function:is_root/first-declaration' % PU, 'R15.3:%s:function:is_root/redeclaration' % PU)]
@@ -1680,10 +1808,11 @@ def run(P, rep, tier):
     rep.explanation = ('Decision tables of the symbol-emission code, obtained by abstract interpretation (Engine I) of chibicc\'s own source on complete finite input '
                        'domains and compared with oracle tables: emit_data / emit_text / gen_addr(ND_VAR) for every combination of the linkage and storage flags of an Obj '
                        'and of -fcommon / -fPIC (emitted directives are parsed and the address left in %rax is evaluated symbolically); function(), primary(), '
-                       'global_variable(), declaration() for every combination of declaration attributes; mark_live on all reference graphs over three functions; '
+                       'global_variable(), declaration() for every combination of declaration attributes (function(): also for every state an earlier declaration can have left, '
+                       'judging that a redeclaration keeps the linkage of the first declaration, and find_func on scope chains of depth 1-3 for every flag combination of the bound function); mark_live on all reference graphs over three functions; '
                        'scan_globals on all lists of up to three file-scope objects over two names; parse_args / run_linker on concrete option vectors. '
-                       'Not decided: link results, run-time equivalence of the configurations, initialiser bytes (C05), prologue/epilogue (C06), C11 inline-definition '
-                       'merging across redeclarations with different specifiers, initial-exec TLS for extern thread-locals of shared objects.')
+                       'Not decided: link results, run-time equivalence of the configurations, initialiser bytes (C05), prologue/epilogue (C06), the one redeclaration case the Obj flags '
+                       'cannot tell apart (`inline f` vs `static inline f` followed by a plain / extern declaration: C11 inline-definition merging), initial-exec TLS for extern thread-locals of shared objects.')
     rep.assumptions += ['states never built by the parser are not judged (tentative with initialiser / thread-local / extern; local thread-local; non-static function that is not live)',
                         'one declarator per declaration in global_variable()/declaration(); a definition has `{` where a prototype has `;`',
                         'gas semantics: a symbol is local unless .globl; .comm is global unless preceded by .local; .L names stay out of the symbol table',
